@@ -253,6 +253,25 @@ func TestC05(t *testing.T) {
 						var gerr error
 						what := ""
 						c.Guard("history step", func() {
+							// sometimes reposition first and abandon that position without reading there
+							for k := rr.Intn(3); k > 0; k-- {
+								p := int64(rr.Intn(int(n) + 1))
+								switch rr.Intn(3) {
+								case 0:
+									_, gerr = rs.Seek(p, io.SeekStart)
+								case 1:
+									_, gerr = rs.Seek(p-n, io.SeekEnd)
+								default:
+									_, gerr = rs.Seek(0, io.SeekCurrent)
+								}
+								if gerr != nil {
+									return
+								}
+								c.Count("abandoned_seeks", 1)
+							}
+							if np, e := rs.Seek(0, io.SeekCurrent); e == nil {
+								pos = np
+							}
 							switch rr.Intn(3) {
 							case 0:
 								what = fmt.Sprintf("step %d: Seek(%d,Start)+ReadFull(%d) after position %d", step, a, b-a, pos)
